@@ -140,8 +140,16 @@ def run(R):
         ins = tonic.body(re.compile(r"^<&'static str as metadata::map::into_metadata_key::Sealed<VE>>::insert$"))
         R.check(len(ins.calls(pat='MetadataKey::<VE>::from_static')) == 1, 'C08.R3', 'insert-static-key-validated', site(ins), 'insert(&\'static str) goes through MetadataKey::<VE>::from_static')
         bk = tonic.body(re.compile(r'<metadata::encoding::Binary as metadata::encoding::ValueEncoding>::is_valid_key$'))
-        ew = bk.calls(name='ends_with')
-        R.check(len(ew) == 1 and const_val(bk.origin(ew[0][1]['args'][1])) == '-bin' and ew[0][1]['dest']['l'] == 0, 'C08.R3', 'binary=ends_with(-bin)', site(bk), 'Binary::is_valid_key = key.ends_with("-bin")')
+        R.saw(bk)
+        # the "-bin" suffix test; map lookups by &str are case-insensitive (http::HeaderMap normalises), so the test must be too
+        sfx = [const_val(bk.origin(a)) for bb, t in bk.calls() for a in t['args']]
+        sfx += [v for bb in bk.live_blocks() for st in bk.blocks[bb]['stmts'] if 'rv' in st for v in [const_val(bk._origin_def(('stmt', bb, 0, st['rv']), 0, set()))]]
+        has_sfx = any(x in ('-bin', b'-bin') for x in sfx)
+        R.check(has_sfx, 'C08.R3', 'binary=suffix(-bin)', site(bk), 'Binary::is_valid_key tests the "-bin" suffix: constants seen %r' % [x for x in sfx if isinstance(x, (str, bytes))])
+        ci = bool(bk.calls(name='eq_ignore_ascii_case')) or (bool(bk.calls(name='to_ascii_lowercase') or bk.calls(name='to_lowercase')) and bool(bk.calls(name='ends_with')))
+        R.check(ci, 'C08.R3', 'binary-suffix-case-insensitive', site(bk),
+                'the suffix test ignores ASCII case: %r (accepted: eq_ignore_ascii_case on the last 4 bytes, or lower-casing before ends_with). A case-sensitive test lets map.get("X-FOO-BIN") '
+                'pass the Ascii key check while http::HeaderMap finds the binary entry "x-foo-bin", which is then presented as an ASCII value' % ci)
         ak = tonic.body(re.compile(r'<metadata::encoding::Ascii as metadata::encoding::ValueEncoding>::is_valid_key$'))
         rt = mirlib.returned_terms(ak)
         oka = len(rt) == 1 and rt[0][1][0] == 'un' and rt[0][1][1] == 'Not' and is_call(strip_refs(rt[0][1][2]), name='is_valid_key') and 'Binary' in (strip_refs(rt[0][1][2])[4].get('self_ty') or strip_refs(rt[0][1][2])[1])
